@@ -13,6 +13,7 @@
 //!   w <hex> | wa <hex> | f | s | ds          sender: one write call, write_all loop, flush, shutdown, drop
 //!   wc <hex> | rc <n>                        like w / r, but the call is cancelled (its future dropped) if it is
 //!                                            still pending at the next quiescent point
+//!   mv                                       sender: ship the `Sender` object to the other endpoint (mid-stream)
 //!   r <n> | drain <n> | dr                   receiver: one read call with an n-byte buffer, read to EOF/error, drop
 //!   cut <A|B>                                 drop the transport of that endpoint
 //!   end
@@ -22,7 +23,7 @@
 //!   call r <k> read <n>                        ret r <k> ok <hex> | err <kind>     probe r <bytes_received> <size|->
 //!   pend <s|r> <k>    op still pending at the quiescent point after it was started
 //!   cancelled <s|r> <k>   the pending call was dropped
-//!   drop s | drop r | cut | hang <s|r> <k> | panic <text> | end
+//!   move s | drop s | drop r | cut | hang <s|r> <k> | panic <text> | end
 
 use std::{
     collections::{BTreeMap, VecDeque},
@@ -74,6 +75,7 @@ enum Op {
     WA(Vec<u8>),
     F,
     S,
+    MV,
     DS,
     R(usize),
     Drain(usize),
@@ -117,6 +119,7 @@ fn case_text(c: &Case) -> Vec<String> {
             Op::F => "f".into(),
             Op::S => "s".into(),
             Op::DS => "ds".into(),
+            Op::MV => "mv".into(),
             Op::R(n) => format!("r {n}"),
             Op::Drain(n) => format!("drain {n}"),
             Op::DR => "dr".into(),
@@ -173,6 +176,7 @@ fn parse_cases(text: &str) -> Vec<Case> {
                     "f" => Op::F,
                     "s" => Op::S,
                     "ds" => Op::DS,
+                    "mv" => Op::MV,
                     "r" => Op::R(w[1].parse().unwrap()),
                     "drain" => Op::Drain(w[1].parse().unwrap()),
                     "dr" => Op::DR,
@@ -221,6 +225,8 @@ enum SCmd {
     WriteAll(Vec<u8>),
     Flush,
     Shutdown,
+    /// hand the sender object out (to be shipped) and continue with the one that comes back
+    Swap(tokio::sync::oneshot::Sender<IoTx>, tokio::sync::oneshot::Receiver<Option<IoTx>>),
     Drop,
 }
 
@@ -294,6 +300,9 @@ async fn sender_actor(mut tx: IoTx, mut cmds: mpsc::UnboundedReceiver<SCmd>, sh:
     let mut usable = true;
     while let Some(cmd) = cmds.recv().await {
         if !usable && !matches!(cmd, SCmd::Drop) {
+            if let SCmd::Swap(_, _) = cmd {
+                // (dropping the handles makes the interpreter skip the move)
+            }
             sh.lock().unwrap().busy[0] = false;
             continue;
         }
@@ -339,6 +348,26 @@ async fn sender_actor(mut tx: IoTx, mut cmds: mpsc::UnboundedReceiver<SCmd>, sh:
                     },
                 );
                 tr(format!("probe s {} {}", tx.bytes_written(), opt(tx.expected_size())));
+            }
+            SCmd::Swap(out, back) => {
+                // the effects of shipping (a chunk in flight is dropped with the original object) happen while
+                // the object is serialized, i.e. from here on
+                tr("move s".into());
+                let _ = out.send(tx);
+                match back.await {
+                    Ok(Some(t)) => {
+                        tx = t;
+                        tr(format!("probe s {} {}", tx.bytes_written(), opt(tx.expected_size())));
+                    }
+                    _ => {
+                        // shipping failed (connection gone): the object was dropped with the message
+                        tr("drop s".into());
+                        let mut g = sh.lock().unwrap();
+                        g.busy[0] = false;
+                        g.gone[0] = true;
+                        return;
+                    }
+                }
             }
             SCmd::Drop => {
                 tr("drop s".into());
@@ -488,6 +517,18 @@ async fn ship(msg: Msg, via: &str, from: &mut BaseTx, to: &mut BaseRx) -> Msg {
     }
 }
 
+/// Like `ship`, but a failure (connection gone) is reported instead of panicking.
+async fn try_ship(msg: Msg, from: &mut BaseTx, to: &mut BaseRx) -> Option<Msg> {
+    let (s, r) = tokio::join!(from.send(Ctl::Direct(msg)), to.recv());
+    if s.is_err() {
+        return None;
+    }
+    match r {
+        Ok(Some(Ctl::Direct(m))) => Some(m),
+        _ => None,
+    }
+}
+
 async fn run_case(c: Case) {
     let cfgs = [mk_cfg(c.chunk[0], c.buf[0]), mk_cfg(c.chunk[1], c.buf[1])];
     let (a, b) = tokio::io::duplex(256);
@@ -571,14 +612,22 @@ async fn run_case(c: Case) {
     enum Cmd {
         S(SCmd),
         R(RCmd),
+        /// ship the sender to the other endpoint (done by the interpreter when the sender is idle)
+        Mv,
     }
+    struct Ends {
+        tx: [BaseTx; 2],
+        rx: [BaseRx; 2],
+        sender_side: usize,
+    }
+    let mut ends = Ends { tx: [a_tx, b_tx], rx: [a_rx, b_rx], sender_side };
     let mut q: [VecDeque<Cmd>; 2] = [VecDeque::new(), VecDeque::new()];
     let mut sched = Rng::new(c.sched);
 
     // start queued commands on idle sides; report ops that are pending at the quiescent point
     async fn pump(
         q: &mut [VecDeque<Cmd>; 2], sh: &Sh, s_tx: &mpsc::UnboundedSender<SCmd>, r_tx: &mpsc::UnboundedSender<RCmd>,
-        full: bool, sched: &mut Rng,
+        full: bool, sched: &mut Rng, ends: &mut Ends,
     ) -> bool {
         let mut any = false;
         loop {
@@ -599,6 +648,32 @@ async fn run_case(c: Case) {
                         }
                         Cmd::R(c) => {
                             let _ = r_tx.send(c);
+                        }
+                        Cmd::Mv => {
+                            let (out_tx, out_rx) = tokio::sync::oneshot::channel();
+                            let (back_tx, back_rx) = tokio::sync::oneshot::channel();
+                            let _ = s_tx.send(SCmd::Swap(out_tx, back_rx));
+                            if let Ok(obj) = out_rx.await {
+                                let from = ends.sender_side;
+                                let to = 1 - from;
+                                let (ftx, trx) = {
+                                    let (a, b) = ends.tx.split_at_mut(1);
+                                    let (c, d) = ends.rx.split_at_mut(1);
+                                    if from == 0 { (&mut a[0], &mut d[0]) } else { (&mut b[0], &mut c[0]) }
+                                };
+                                match try_ship(Msg::Tx(obj), ftx, trx).await {
+                                    Some(Msg::Tx(t)) => {
+                                        ends.sender_side = to;
+                                        let _ = back_tx.send(Some(t));
+                                    }
+                                    _ => {
+                                        let _ = back_tx.send(None);
+                                    }
+                                }
+                            } else {
+                                // the sender is not usable any more: nothing to move
+                                sh.lock().unwrap().busy[side] = false;
+                            }
                         }
                     }
                     progressed = true;
@@ -647,6 +722,7 @@ async fn run_case(c: Case) {
             Op::F => q[0].push_back(Cmd::S(SCmd::Flush)),
             Op::S => q[0].push_back(Cmd::S(SCmd::Shutdown)),
             Op::DS => q[0].push_back(Cmd::S(SCmd::Drop)),
+            Op::MV => q[0].push_back(Cmd::Mv),
             Op::R(n) => q[1].push_back(Cmd::R(RCmd::Read(*n))),
             Op::Drain(n) => q[1].push_back(Cmd::R(RCmd::Drain(*n))),
             Op::DR => q[1].push_back(Cmd::R(RCmd::Drop)),
@@ -659,12 +735,12 @@ async fn run_case(c: Case) {
                 settle().await;
             }
         }
-        pump(&mut q, &sh, &s_tx, &r_tx, c.settle, &mut sched).await;
+        pump(&mut q, &sh, &s_tx, &r_tx, c.settle, &mut sched, &mut ends).await;
     }
     // run everything that is still queued, always settling
     loop {
         settle().await;
-        if !pump(&mut q, &sh, &s_tx, &r_tx, true, &mut sched).await {
+        if !pump(&mut q, &sh, &s_tx, &r_tx, true, &mut sched, &mut ends).await {
             break;
         }
     }
@@ -673,7 +749,7 @@ async fn run_case(c: Case) {
     tokio::time::sleep(Duration::from_secs(3600)).await;
     loop {
         settle().await;
-        if !pump(&mut q, &sh, &s_tx, &r_tx, true, &mut sched).await {
+        if !pump(&mut q, &sh, &s_tx, &r_tx, true, &mut sched, &mut ends).await {
             break;
         }
     }
@@ -691,7 +767,7 @@ async fn run_case(c: Case) {
     for cn in &conns {
         cn.abort();
     }
-    drop((a_tx, a_rx, b_tx, b_rx));
+    drop(ends);
     settle().await;
     tr("end".into());
 }
@@ -830,6 +906,15 @@ fn gen_case(r: &mut Rng, i: u64, stats: &mut BTreeMap<String, u64>) -> Case {
         sops.push(Op::W(Vec::new()));
         bump("write.empty");
     }
+    // the sender object is shipped to the other endpoint in mid-stream (possibly with a chunk in flight)
+    // (only a sender that was itself received from the peer: on the pinned tree the original local sender
+    // cannot follow an already shipped receiver - interlock defect of rch::bin, same cause as the `both` placements)
+    let moved = (topo == "txremote" || topo == "bouncetx") && r.chance(1, 3);
+    if moved {
+        let at = r.below(sops.len() as u64 + 1) as usize;
+        sops.insert(at, Op::MV);
+        bump("sender.moved-midstream");
+    }
     // where the sender stops: the whole script, or cut short at a random op (drop at any offset)
     if r.chance(1, 4) && !sops.is_empty() {
         let keep = r.below(sops.len() as u64 + 1) as usize;
@@ -942,6 +1027,8 @@ fn gen_case(r: &mut Rng, i: u64, stats: &mut BTreeMap<String, u64>) -> Case {
         ops.insert(at, Op::Cut(r.below(2) as usize));
         bump("fault.cut");
     }
+    // a moved sender asks its new endpoint's peer for the chunk size: keep it the same on both sides
+    let chunk = if moved { [chunk[1 - sender_side], chunk[1 - sender_side]] } else { chunk };
     let settle = !r.chance(1, 4);
     bump(if settle { "schedule.settled" } else { "schedule.burst" });
     bump(&format!("payload.{}", match total {
